@@ -257,6 +257,26 @@ pub fn run(cfg: &Cfg) -> (&'static str, Report, String, String) {
         }
         r.ev("planted-byte-neighbours");
     }));
+    // long delimiters (word-at-a-time comparisons of the delimiter itself: 8/9/16/17/33 bytes), 0..=3 occurrences,
+    // inputs ending in a piece, in the delimiter, or in a near miss
+    let longd = ["<=sep=>!", "<=sep===>", ", and then ", "0123456789abcdef", "0123456789abcdefg", "\u{2192}\u{2192}\u{2192}", "abcdefghijklmnopqrstuvwxyz0123456"];
+    rep.merge(par_for(cfg, longd.len(), |w, r| {
+        if cfg.miri() && w != 1 {
+            return;
+        }
+        let d = longd[w];
+        let miss = &d[..d.char_indices().last().unwrap().0];
+        for pieces in [&["alpha"][..], &["alpha", "beta"], &["alpha", "beta", "gamma"], &["", "x", ""], &["a", "", "b", ""]] {
+            let joined = pieces.join(d);
+            for tail in ["", d, miss, "z"] {
+                let s = format!("{}{}", joined, tail);
+                pair(r, &s, d);
+                let s2 = format!("{}{}{}", miss, joined, tail);
+                pair(r, &s2, d);
+            }
+        }
+        r.ev("long-delimiters");
+    }));
     let nrand = cfg.by(3, 1500, 10000);
     rep.merge(par_for(cfg, nrand, |i, r| {
         let mut rng = Rng::new(cfg.seed.wrapping_mul(104_729).wrapping_add(i as u64));
